@@ -741,6 +741,38 @@ fn scene_ok(sc: &Scene) -> bool {
     all.iter().all(|s| str_ok(s)) && !sc.guid.is_empty()
 }
 
+/// `n` files laid out by the independent specification encoder (for other engines that need files that do
+/// not come from the writer under test); None = the encoder is unavailable
+pub fn encoded_files(rng: &mut Rng, n: usize) -> Option<Vec<Vec<u8>>> {
+    let lv = "independent spec encoder".to_string();
+    let mut enc_lines: Vec<String> = vec![];
+    let mut tries = 0;
+    while enc_lines.len() < n && tries < 6 * n {
+        tries += 1;
+        let prog = {
+            let mut g = Gen { rng, exts: vec![], n: 0 };
+            g.program(20)
+        };
+        let dev = crate::dev::SimDev::new(vec![]);
+        let run = execute(&prog, &dev);
+        if run.panicked || run.results.last().map(|s| s != "ok").unwrap_or(true) {
+            continue;
+        }
+        let mut sc = expected_scene(&prog, &run.results);
+        sc.blobs.clear();
+        let mut urls: Vec<&String> = sc.exts.iter().map(|e| &e.1).collect();
+        urls.sort();
+        urls.dedup();
+        if !scene_ok(&sc) || sc.exts.iter().any(|e| e.1.is_empty() || e.1 == NS) || urls.len() != sc.exts.len() {
+            continue;
+        }
+        let p = plan(rng, &sc, &lv);
+        enc_lines.push(format!("enc {} {} {} {}", p.xml_pos, hexs(&p.xml), p.sections.len(), p.sections.join(" ")));
+    }
+    let files = run_model("enc", &enc_lines)?;
+    Some(files.iter().filter_map(|h| unhex(h)).collect())
+}
+
 pub fn generate(sink: &mut Sink, seed: u64, thorough: bool) {
     let mut rng = Rng::new(seed ^ 0x1A70);
     let lv = "independent spec encoder".to_string();
